@@ -17,17 +17,23 @@ IsEvent(e) == l <= Len(TraceLog) /\ Ev.op = e /\ l' = l + 1
 TAdd == IsEvent("Add") /\ Add(Ev.item) /\ UNCHANGED nops
 TIsFull == IsEvent("IsFull") /\ Ev.res = IsFullResult /\ UNCHANGED vars
 TFlush == IsEvent("Flush") /\ Ev.res = FlushResult(Ev.tok) /\ Flush(Ev.tok) /\ UNCHANGED nops
-\* An expiry may deliver the current batch's token (then the timer must have been
-\* armed for it) or a stale one (C20 only demands that a stale token flushes nothing).
-TFire == /\ IsEvent("Fire") /\ Ev.tok \in 0..token
-         /\ Ev.tok = token => armed = token
-         /\ armed' = IF Ev.tok = armed THEN None ELSE armed
-         /\ UNCHANGED <<added, batch, token, handed, nops>>
-TNoFire == IsEvent("NoFire") /\ armed = None /\ UNCHANGED vars
+\* The timer goes off (the harness takes the callback the batcher set). If the
+\* code did not stop the timer of a flushed batch this may be a stale timer:
+\* C20 allows that (a stale token flushes nothing).
+TExpire == /\ IsEvent("Expire")
+           /\ inflight' = Append(inflight, lastSet) /\ armed' = None
+           /\ UNCHANGED <<added, batch, token, lastSet, handed, nops>>
+\* no callback is set: then no batch may be waiting for its time-out
+TNoExpire == IsEvent("NoExpire") /\ armed = None /\ UNCHANGED vars
+\* the dispatched callback runs (possibly much later) and must deliver the token
+\* of the batch its timer was set for
+TFire == /\ IsEvent("Fire") /\ inflight # <<>> /\ Ev.tok = Head(inflight)
+         /\ inflight' = Tail(inflight)
+         /\ UNCHANGED <<added, batch, token, armed, lastSet, handed, nops>>
 TReset == /\ IsEvent("Reset")
-          /\ added' = <<>> /\ batch' = <<>> /\ token' = 0 /\ armed' = None /\ handed' = <<>> /\ nops' = 0
+          /\ added' = <<>> /\ batch' = <<>> /\ token' = 0 /\ armed' = None /\ lastSet' = None /\ inflight' = <<>> /\ handed' = <<>> /\ nops' = 0
 
-TraceNext == TAdd \/ TIsFull \/ TFlush \/ TFire \/ TNoFire \/ TReset
+TraceNext == TAdd \/ TIsFull \/ TFlush \/ TExpire \/ TNoExpire \/ TFire \/ TReset
 TraceSpec == TraceInit /\ [][TraceNext]_tvars
 
 TraceAccepted ==
